@@ -126,19 +126,23 @@ def it_slice(c):
 
 def it_concat(c):
     ws = c['ws']
-    ins_ = [I(w, 'a%d' % i) for i, w in enumerate(ws)]
+    pool = [I(w, 'a%d' % i) for i, w in enumerate(ws)]
+    # 'pick': which pool wire sits at each position (the same wire may occur several times in one concat)
+    pick = c.get('pick') or list(range(len(ws)))
+    ins_ = [pool[i] for i in pick]
     r = pyrtl.concat(*ins_)
     r2 = pyrtl.concat_list(ins_)
 
     def orc(ins):
         v = 0
-        for i, w in enumerate(ws):
-            v = (v << w) | ins['a%d' % i]
+        for i in pick:
+            v = (v << ws[i]) | ins['a%d' % i]
         v2 = 0
-        for i, w in reversed(list(enumerate(ws))):
-            v2 = (v2 << w) | ins['a%d' % i]
+        for i in reversed(pick):
+            v2 = (v2 << ws[i]) | ins['a%d' % i]
         return {'r': v, 'r_list': v2}
-    return {'outs': {'r': r, 'r_list': r2}, 'widths': {'r': sum(ws), 'r_list': sum(ws)}, 'oracle': orc}
+    total = sum(ws[i] for i in pick)
+    return {'outs': {'r': r, 'r_list': r2}, 'widths': {'r': total, 'r_list': total}, 'oracle': orc}
 
 
 def it_assign(c):
@@ -365,6 +369,18 @@ def cases(tier, seed):
                 wk = max(wa, 2)
                 for side in 'lr':
                     out.append({'item': 'constop', 'op': op, 'wa': wa, 'k': k, 'kind': 'sconst', 'wk': wk, 'side': side})
+    # concats in which one wire occurs several times; slices that cross a limb boundary; arithmetic shifts by a wire amount (the
+    # barrel shifter repeats its fill wire): on all three back ends
+    for be in ('sim', 'fast', 'compiled'):
+        for ws_, pick in (([3], [0, 0]), ([2, 3], [0, 1, 0]), ([1, 4], [0, 0, 1]), ([2, 3], [1, 0, 1, 0]), ([65, 3], [0, 1, 0])):
+            out.append({'item': 'concat', 'ws': ws_, 'pick': pick, 'backend': be})
+        for wa in (65, 70, 130):
+            for sl in ([60, 70, None], [1, None, None], [3, None, None], [63, 65, None], [64, wa, None], [0, 64, None], [62, wa - 1, None],
+                       [None, None, 2], [None, None, -1]):
+                out.append({'item': 'slice', 'wa': wa, 'sl': sl, 'backend': be})
+        for kind in SHIFTS if 'SHIFTS' in globals() else ('sll', 'sla', 'srl', 'sra'):
+            for w_, ws2 in ((5, 3), (8, 4), (65, 7)):
+                out.append({'item': 'shift_wire', 'kind': kind, 'wa': w_, 'ws': ws2, 'backend': be})
     # the operators at the 64-bit limb boundaries on the other two back ends
     for be in ('compiled', 'fast'):
         for op in ('+', '-', '<', '==', '&') + (('*',) if tier != 'quick' else ()):
